@@ -104,6 +104,18 @@ ExtentSrcLeaves ==
     \cup {[op |-> "extent", src |-> "optrange", a |-> 3, b |-> None, kvs |-> c] : c \in ExtContent(3, None)}
     \cup {[op |-> "extent", src |-> "optrange", a |-> None, b |-> 5, kvs |-> c] : c \in ExtContent(None, 5)}
 
+\* Map carriers whose keys have mixed lengths, chosen so that the byte (lexicographic) order of
+\* the texts and a length-first order differ ("é" / "ts" (2 bytes) against "evt_kind" (8), "b"
+\* against "span_id"): a map is built in the order of its KEY TYPE and searched by text.  The
+\* key type of a map carrier follows from the key storage form (KeyForms of Props.tla):
+\* BTreeMap / HashMap keyed by &str (literal, shared_buf), String (string), Str (str_ref,
+\* str_owned, str_shared).  Each alone, under every unary node (dyn ErasedProps included) and
+\* joined (and_props) with the leaves of ViewRights.
+MixedLenMaps(b) ==
+    {[op |-> o, kvs |-> KVs(DescSeq(X), b)] :
+        o \in {"btree", "hash"},
+        X \in {{Ke, KEvtKind}, {Kb, KTs, Ke, KEvtKind}, {Ka, Kb, KSpanId, KTs, KTsStart}, {K_, Ke, Ka, KTraceId}}}
+
 \* ThreadLocalCtxt snapshots after 2-3 nested pushed frames with overlapping keys.  Which
 \* frame's value a snapshot holds for a repeated key is C03's subject: every resolution
 \* (each key takes the value of any frame that has it) is a collection of its own here,
@@ -298,7 +310,8 @@ MC_Seeds(m) ==
     IF Which = "big" THEN BigLeaves \cup BigJoins
     ELSE IF Which = "views" THEN AllViews \cup {[op |-> o, t |-> x] : o \in {"dedup", "erased"}, x \in AllViews}
                             \cup {[op |-> "and", l |-> x, r |-> y] : x \in ViewRights(70), y \in AllViews}
-                            \cup ExtentSrcLeaves
+                            \cup ExtentSrcLeaves \cup MixedLenMaps(30)
+                            \cup {[op |-> "and", l |-> [op |-> "pair", kvs |-> KVs(<<KEvtKind>>, 70)], r |-> y] : y \in MixedLenMaps(30)}
                             \cup {[op |-> "and", l |-> x, r |-> y] :
                                      x \in {[op |-> "pair", kvs |-> KVs(<<KTs>>, 70)],
                                             [op |-> "arr", kvs |-> KVs(<<KTsStart, KTs, KTs>>, 70)]},
